@@ -13,6 +13,12 @@ OPS = {
     "gt": "{a} > {b}",
     "noteq": "not {a} = {b}",
     "le": "{a} <= {b}",
+    "ge": "{a} >= {b}",
+    "notgt": "not {a} > {b}",
+    "notge": "not {a} >= {b}",
+    "notlt": "not {a} < {b}",
+    "notle": "not {a} <= {b}",
+    "notneq": "not {a} != {b}",
 }
 
 
@@ -23,7 +29,7 @@ def cmp(op: str, a: str, b: str):
 
 def groups(tier: str):
     """yield (name, literals, comparison literals, compared vars, group var)"""
-    ops1 = ["neq", "lt", "gt", "noteq", "none", "le"]
+    ops1 = ["neq", "lt", "gt", "noteq", "none", "le", "ge", "notgt", "notge", "notlt", "notle", "notneq"]
     # p/2, two copies, shared group argument
     for op in ops1:
         yield (f"p2k2_{op}", ["p(G,A)", "p(G,B)"], [cmp(op, "A", "B")], ["A", "B"], "G")
@@ -88,6 +94,8 @@ CONTEXTS = [
     ("ncond", "h :- d(1), not q(0) : {B}."),
     ("weak", ":~ {B}. [1@1,{G}]"),
     ("weakA", ":~ {B}. [A@1,{G}]"),
+    ("weakprio", ":~ {B}. [1@A,{G}]"),
+    ("weakprioB", ":~ {B}. [1@B]"),
 ]
 
 PDEFS = [
@@ -151,4 +159,27 @@ def jobs(tier: str):
                         yield job("C11", prog, u, [config(["symmetry"], inp_used, [], oracle)],
                                   meta={"group": gname, "extra": ename, "ctx": cname, "p": pname})
 
+    def eqagg():
+        # symmetry first substitutes variable equalities, also inside aggregate elements: equalities between local
+        # variables, between a local and a global variable, and between two global variables
+        stms = [
+            ("loc_glob", "h(Y) :- q(Y), 1 <= #count {{ A : w(A), A = Y }}."),
+            ("glob_loc", "h(Y) :- q(Y), 1 <= #count {{ A : w(A), Y = A }}."),
+            ("glob_glob", "h(Y,Z) :- q(Y), q(Z), 1 <= #count {{ A : w(A), Z = Y }}."),
+            ("loc_loc_glob", "h(Y) :- q(Y), 1 <= #count {{ A,B : w(A), w(B), A = B, B = Y }}."),
+            ("loc_loc", "h :- 2 <= #count {{ A,B : w(A), w(B), A = B }}."),
+            ("top_and_elem", "h(Y,Z) :- q(Y), q(Z), Y = Z, 1 <= #count {{ A : w(A), A = Z }}."),
+            ("elem_two", "h(Y) :- q(Y), 2 <= #sum {{ A : w(A), A = Y ; B,b : w(B), B != Y }}."),
+            ("weak", ":~ q(Y), 1 <= #count {{ A : w(A), A = Y }}. [1@1,Y]"),
+            ("noteq", "h(Y) :- q(Y), 1 <= #count {{ A : w(A), not A != Y }}."),
+        ]
+        for name, stm in stms:
+            for pname, pdef in (("input", ""), ("choice", "{ w(X) } :- dw(X).")):
+                inp = [["q", 1], ["w", 1]] if pname == "input" else [["q", 1], ["dw", 1]]
+                pre = "" if pname == "input" else "d"
+                u = ["q(1)", "q(2)", f"{pre}w(1)", f"{pre}w(2)", f"{pre}w(3)"]
+                yield job("C11/eqagg", (pdef + "\n" if pdef else "") + stm.replace("{{", "{").replace("}}", "}"), u,
+                          [config(["symmetry"], inp, [], oracle)], meta={"stm": name, "p": pname})
+
     yield from dedupe(gen())
+    yield from dedupe(eqagg())
